@@ -97,6 +97,15 @@ def _children_order(fn: ast.FunctionDef, meths: dict, depth: int = 0):
             if v is not None:
                 env[s.targets[0].id] = v
             continue
+        if isinstance(s, ast.Assign) and len(s.targets) == 1 and isinstance(s.targets[0], (ast.Tuple, ast.List)) \
+                and all(isinstance(e_, ast.Name) for e_ in s.targets[0].elts):
+            # a, b = <children>: element-wise binding
+            v = _eval_children(s.value, env)
+            if v is not None and len(v) == len(s.targets[0].elts):
+                for e_, role in zip(s.targets[0].elts, v):
+                    env["@" + e_.id] = role
+                continue
+            return None
         if isinstance(s, ast.Return) and isinstance(s.value, ast.Call):
             c = s.value
             # delegation self.__X__(other)
@@ -126,6 +135,8 @@ def _eval_children(e: ast.expr, env: dict):
             if isinstance(el, ast.Subscript) and isinstance(el.value, ast.Name) and el.value.id in env and isinstance(
                     el.slice, ast.Constant) and el.slice.value in (0, 1):
                 out.append(env[el.value.id][el.slice.value])
+            elif isinstance(el, ast.Name) and ("@" + el.id) in env:
+                out.append(env["@" + el.id])
             else:
                 return None
         return tuple(out)
@@ -441,6 +452,28 @@ def _check_previous(ctx: Ctx, par, ev: ast.FunctionDef) -> None:
                           facts={"returns": u(r.value) if r.value else None})
     if n < 2:
         raise AnchorError("expected two previous time/iterate leaf arms (MixedDimensionalVariable, Variable)")
+    # ordering contract inside the leaf arm: values of leaves are placed with `dofs_of` (argument order, the order of
+    # op.sub_vars); readers with a different ordering contract (get_variable_values: global dof order) permute the
+    # values of md-variables whose creation order differs from the grid order.
+    leaf = [i for i in ev.body if isinstance(i, ast.If) and "is_leaf" in u(i.test)]
+    if not leaf:
+        raise AnchorError("_evaluate_single: leaf arm not found")
+    used = []
+    for nd in ast.walk(leaf[0]):
+        if isinstance(nd, ast.Attribute) and isinstance(nd.value, ast.Name) and nd.value.id == "equation_system":
+            used.append(nd)
+    for nd in used:
+        if nd.attr in ("dofs_of", "mdg"):
+            continue
+        if nd.attr in ("get_variable_values", "get_variables", "variables"):
+            ctx.check("R5", False, par, "AdParser._evaluate_single", nd,
+                      f"leaf values are read with equation_system.{nd.attr} (global dof order) while the current-state arm indexes with "
+                      f"dofs_of([op]) (order of op.sub_vars): the two orders differ when sub-variables were created in another order "
+                      f"than the grids", construct=f"leaf arm uses equation_system.{nd.attr}")
+        else:
+            raise Undecided(f"_evaluate_single leaf arm uses equation_system.{nd.attr}: unknown ordering contract")
+    ctx.check("R5", True, par, "AdParser._evaluate_single", leaf[0], "leaf arms place values only through dofs_of (argument order)",
+              construct="leaf arm ordering contract", facts={"uses": sorted({n_.attr for n_ in used})})
 
 
 def _check_prev_helper(ctx: Ctx, ops) -> None:
@@ -495,6 +528,10 @@ def _m(name, old, new, rule, file=OPS, control=False, count=1):
 
 
 MUTANTS = [
+    _m("seed-rpow-unpacked-not-swapped", "        children = self._parse_other(other)\n        # Self is the right operand: swap the children and use the forward operation,\n        # as is done in __rsub__.\n        children = [children[1], children[0]]\n        return Operator(\n            children=children,\n            operation=Operations.pow,",
+       "        exponent, base = self._parse_other(other)\n        children = [exponent, base]\n        return Operator(\n            children=children,\n            operation=Operations.pow,", "R2"),
+    _m("seed-mdvar-previous-global-order", "                    return vals[np.hstack(dofs, dtype=int)] if dofs else np.array([])",
+       "                    return equation_system.get_variable_values([op], time_step_index=op.time_step_index, iterate_index=op.iterate_index)", "R5", file=PARSER),
     _m("revert-fix-reflected-not-swapped", "        children = [children[1], children[0]]\n        return Operator(\n            children=children,\n            operation=Operations.div,",
        "        return Operator(\n            children=children,\n            operation=Operations.div,", "R2", control=True),
     _m("revert-fix-rmatmul-member", "            operation=Operations.matmul,\n            name=\"reverse @ operator\",", "            operation=Operations.rmatmul,\n            name=\"reverse @ operator\",", "R1"),
